@@ -107,7 +107,7 @@ pub fn c05_instances(tier: Tier) -> Vec<Instance> {
                 i.fail_budget = if thorough { 2 } else { 1 };
                 i.fail_kinds = if total <= 16 { vec![0, 1, 2, 3] } else { vec![0, 3] };
                 // the clock is an input of the async read (90 s timeout): 30 s steps, never 90 s in a row
-                i.tick_budget = if imp == Impl::Tokio && (seq.len() <= 2 || thorough) { 1 } else { 0 };
+                i.tick_budget = if imp == Impl::Tokio && seq.len() <= 2 { 1 } else { 0 };
                 out.push(i);
             }
         }
@@ -177,12 +177,44 @@ pub fn c06_instances(tier: Tier) -> Vec<Instance> {
             }
         }
     }
+    // every kind's B1 packet and the largest frames of every counted kind as a single write followed
+    // by a TINY: the write path must not depend on the kind or on the frame size (up to 1016 bytes)
+    let kinds = spec::load();
+    let tiny = pk[0].1.clone();
+    for c in [true, false] {
+        let codec = Codec::new(mode_of(c));
+        let mut singles: Vec<(String, Packet)> = vec![];
+        for k in &kinds {
+            let vals = crate::gen::baseline(k, 1);
+            let Some(f) = spec::ref_encode(k, &vals, c) else { continue };
+            let mut b = bytes::BytesMut::from(&f[..]);
+            let Ok(Some(p)) = codec.decode(&mut b) else { continue };
+            singles.push((k.name.clone(), p));
+        }
+        for cn in crate::typed::counted() {
+            for n in [cn.max, (1016 - cn.header) / cn.elem, (252 - cn.header) / cn.elem] {
+                let Some(p) = (cn.make)(n) else { continue };
+                if !matches!(crate::report::guard(|| codec.encode(&p)), Ok(Ok(_))) { continue; }
+                singles.push((format!("{}x{n}", cn.kind), p));
+            }
+        }
+        for (name, p) in singles {
+            for imp in [Impl::Blocking, Impl::Tokio] {
+                let mut i = Instance::new(&format!("write-kind#{}#{}#{}", if c { "compressed" } else { "uncompressed" }, name, imp_name(imp)), imp, c, vec![]);
+                i.program = Program::Writes(vec![p.clone(), tiny.clone()]);
+                i.script_writes = true;
+                i.allow_eof = false;
+                i.pending_budget = 1;
+                out.push(i);
+            }
+        }
+    }
     out
 }
 
 pub fn c06(tier: Tier, replay: Option<String>) -> i32 {
     finish("C06", tier, replay, c06_instances(tier),
-        "instances = (mode, implementation, packet sequence of length <= 2 (quick) / <= 3 (thorough) over {TINY 4 B, SMALL 8 B, MSO 12 B, MST 68 B, MCI 228 B}); at every transport write call every acceptance k in 1..=offered (offered <= 12) or {1,2,3,4,n/2,n-1,n}; tokio additionally Pending (<= 2); oracle on every transition: outbound bytes are a prefix of the concatenated frames and complete when write() returns Ok",
+        "instances = (mode, implementation, packet sequence of length <= 2 (quick) / <= 3 (thorough) over {TINY 4 B, SMALL 8 B, MSO 12 B, MST 68 B, MCI 228 B}); at every transport write call every acceptance k in 1..=offered (offered <= 12) or {1,2,3,4,n/2,n-1,n}; not ready (tokio Pending / blocking Interrupted, <= 2) and 30 s clock steps (tokio, <= 2); plus every kind's B1 packet and the largest frames of every counted kind (up to 1016 B) followed by a TINY; oracle on every transition: outbound bytes are a prefix of the concatenated frames and complete when write() returns Ok",
         vec!["the expected frames come from Codec::encode (judged by C01-C03)".into()])
 }
 
